@@ -562,7 +562,7 @@ def run_cvc5(smt2, timeout_s, want_model=False):
         os.unlink(path)
 
 
-def discharge(ob, rlimit=0, timeout_ms=3000, use_cvc5=True, long_ms=30000):
+def discharge(ob, rlimit=0, timeout_ms=3000, use_cvc5=True, long_ms=90000):
     """decide one obligation; never maps unknown to a violation.
     1. z3 on the full quantified formula (short, then long budget);
     2. only if z3 cannot decide it: bounded instantiation - 'unsat' there is a proof, 'sat' a candidate
@@ -588,11 +588,32 @@ def discharge(ob, rlimit=0, timeout_ms=3000, use_cvc5=True, long_ms=30000):
             model = s.model()
 
     z3_try(timeout_ms, 0)
+    if ob.verdict == "unknown":
+        # z3's quantifier instantiation is sensitive to incidental term numbering: the same hypotheses asserted in another order in a
+        # fresh context are often decided in milliseconds.  A small portfolio of permutations (same formulas: an 'unsat' is a proof)
+        import random as _random
+        for k in (1, 2, 3):
+            try:
+                c2 = z3.Context()
+                hy = list(ob.hyps)
+                _random.Random(k).shuffle(hy)
+                s = z3.Solver(ctx=c2)
+                s.set("timeout", timeout_ms)
+                s.set("random_seed", k)
+                s.add(*[h.translate(c2) for h in hy])
+                s.add(z3.Not(ob.goal).translate(c2))
+                r = s.check()
+            except z3.Z3Exception:
+                continue
+            if r == z3.unsat:
+                ob.verdict = "proved"
+                ob.backend = "z3-%s(permuted)" % z3.get_version_string()
+                break
     bi = None
     if ob.verdict == "unknown" and use_cvc5:
         # cvc5's quantifier instantiation is complementary to z3's: many obligations z3 leaves open are
         # decided by it in a fraction of a second
-        cv = run_cvc5(to_smt2(ob.hyps, ob.goal), 10)
+        cv = run_cvc5(to_smt2(ob.hyps, ob.goal), 20)
         if cv == "unsat":
             ob.verdict = "proved"
             ob.backend = "cvc5-1.0.3"
@@ -612,6 +633,8 @@ def discharge(ob, rlimit=0, timeout_ms=3000, use_cvc5=True, long_ms=30000):
     if ob.verdict == "unknown" and long_ms > 1:
         # a candidate counter-model from bounded instantiation is only reported after the full formula has
         # resisted several more attempts (different seeds, one long run)
+        # (budgets are sized so that a verdict does not flip when all cores are busy: the slowest obligation of the unchanged tree
+        # needs about 25 s of the last run on an idle machine)
         for budget, seed in ((timeout_ms, 7), (timeout_ms * 2, 13), (long_ms, 1)):
             z3_try(budget, seed)
             if ob.verdict != "unknown":
